@@ -29,10 +29,66 @@ CORPUS = {
     "leading-and-trailing-space": "\n\n  \tlet a = num;\nres / on get -> <a>;\n\n  ",
     "trailing-garbage": "let a = num;\nres / on get -> <a>;\n\u00a0\u2028§",
     "nul-and-controls": "let a\x00 = num;\x0b\nres / on get -> <a>;\x7f\n",
+    "optional-parts-left-out": 'use "m.oal" as m;\nlet a = m.;\nlet b = { \'x m. , \'y str };\nlet c = b.;\nres /p? on get -> <>;\nres / on get : -> <>;\nlet d = [ ] ;\nlet e = a :: ;\n',
 }
 
 
+def judge(drv, name, text):
+    """One text through the real lexer + parser -> (detail, [mismatch])."""
+    import props.c12 as c12
+    mism = []
+    rc, out, t = run([drv], stdin=text, timeout=60, mem_gb=4, extra_env={"PARSEDRV_MEMO_ONLY": "1"})
+    r = c12.parse_out(out)
+    tk, mm = r.get("tokens", {}), r.get("memo", {})
+    detail = {"rc": rc, "tokens": tk.get("n"), "tiling": tk.get("tiling"), "end": tk.get("end"), "len": tk.get("len"), "gaps_ok": tk.get("gaps_ok"), "slices": tk.get("slices"),
+              "leaves_ok": mm.get("leaves_ok"), "spans_ok": mm.get("spans_ok"), "errs": mm.get("errs")}
+    if rc != 0 or not tk:
+        return detail, ["%s: parser driver died (rc=%s)" % (name, rc)]
+    if tk.get("tiling") != "ok":
+        mism.append("%s: token spans do not ascend inside the text (%s)" % (name, out.split("\n")[0][:100]))
+    if tk.get("gaps_ok") == "false":
+        mism.append("%s: tokens do not tile the text: a gap between tokens (or before the first / after the last) is not a reported lexical error" % name)
+    if tk.get("errs_in_text") == "false":
+        mism.append("%s: a lexical error span leaves the text or is off a character boundary" % name)
+    if tk.get("slices", "ok") != "ok":
+        mism.append("%s: a token's text is not the source slice of its span (%s)" % (name, tk.get("slices")[:120]))
+    if mm.get("leaves_ok") == "false":
+        mism.append("%s: a leaf span is out of order, outside the text or off a character boundary, or the leaves are not exactly the non-trivia tokens of the parsed prefix" % name)
+    if mm.get("spans_ok") == "false":
+        mism.append("%s: a node span leaves the text or is not the hull of its leaves" % name)
+    try:
+        if int(tk.get("end", 0)) > int(tk.get("len", 0)):
+            mism.append("%s: token list ends past the text" % name)
+        if mm.get("errs") == "0" and name not in ("unterminated",) and int(tk.get("end", 0)) != int(tk.get("len", 0)):
+            mism.append("%s: no lexical error but the tokens stop at %s of %s bytes" % (name, tk.get("end"), tk.get("len")))
+    except ValueError:
+        pass
+    return detail, mism
+
+
+def more_texts():
+    """Every module of the shared program pool and every single-token mutation of C04's seeds (deleted, doubled,
+    swapped tokens: dangling operators, qualifiers without a member, unbalanced brackets)."""
+    out = {}
+    try:
+        import pool
+        for k, files in pool.programs().items():
+            for fn, text in files.items():
+                if fn.endswith(".oal"):
+                    out["pool-%s-%s" % (k.replace("/", "-"), fn.replace("/", "-"))] = text
+    except Exception:
+        pass
+    try:
+        import props.c04 as c04
+        for k, text in c04.mutation_texts().items():
+            out["mutation-" + k.replace("/", "-")] = text
+    except Exception:
+        pass
+    return out
+
+
 def run_corpus(tag="spans"):
+    import concurrent.futures as cf
     import props.c12 as c12
     drv = c12.build_parsedrv()
     rdir = new_replay_dir("C11", tag)
@@ -40,33 +96,20 @@ def run_corpus(tag="spans"):
     for name, text in CORPUS.items():
         with open(os.path.join(rdir, name + ".oal"), "w", encoding="utf-8", newline="") as f:
             f.write(text)
-        rc, out, t = run([drv], stdin=text, timeout=60, mem_gb=4, extra_env={"PARSEDRV_MEMO_ONLY": "1"})
-        r = c12.parse_out(out)
-        tk, mm = r.get("tokens", {}), r.get("memo", {})
-        detail[name] = {"rc": rc, "tokens": tk.get("n"), "tiling": tk.get("tiling"), "end": tk.get("end"), "len": tk.get("len"), "gaps_ok": tk.get("gaps_ok"), "slices": tk.get("slices"),
-                        "leaves_ok": mm.get("leaves_ok"), "spans_ok": mm.get("spans_ok"), "errs": mm.get("errs")}
-        if rc != 0 or not tk:
-            mism.append("%s: parser driver died (rc=%s)" % (name, rc))
-            continue
-        if tk.get("tiling") != "ok":
-            mism.append("%s: token spans do not ascend inside the text (%s)" % (name, out.split("\n")[0][:100]))
-        if tk.get("gaps_ok") == "false":
-            mism.append("%s: tokens do not tile the text: a gap between tokens (or before the first / after the last) is not a reported lexical error" % name)
-        if tk.get("errs_in_text") == "false":
-            mism.append("%s: a lexical error span leaves the text or is off a character boundary" % name)
-        if tk.get("slices", "ok") != "ok":
-            mism.append("%s: a token's text is not the source slice of its span (%s)" % (name, tk.get("slices")[:120]))
-        if mm.get("leaves_ok") == "false":
-            mism.append("%s: a leaf span is out of order, outside the text or off a character boundary, or the leaves are not exactly the non-trivia tokens of the parsed prefix" % name)
-        if mm.get("spans_ok") == "false":
-            mism.append("%s: a node span leaves the text or is not the hull of its leaves" % name)
-        try:
-            if int(tk.get("end", 0)) > int(tk.get("len", 0)):
-                mism.append("%s: token list ends past the text" % name)
-            if mm.get("errs") == "0" and name not in ("unterminated",) and int(tk.get("end", 0)) != int(tk.get("len", 0)):
-                mism.append("%s: no lexical error but the tokens stop at %s of %s bytes" % (name, tk.get("end"), tk.get("len")))
-        except ValueError:
-            pass
+        detail[name], m = judge(drv, name, text)
+        mism += m
+    extra = more_texts()
+    bad_extra = 0
+    with cf.ThreadPoolExecutor(max_workers=max(2, (os.cpu_count() or 4) - 2)) as ex:
+        for (name, text), (d, m) in zip(extra.items(), ex.map(lambda kv: judge(drv, kv[0], kv[1]), list(extra.items()))):
+            if m:
+                bad_extra += 1
+                if bad_extra <= 6:
+                    with open(os.path.join(rdir, name + ".oal"), "w", encoding="utf-8", newline="") as f:
+                        f.write(text)
+                    detail[name] = d
+                    mism += m
+    detail["pool-and-mutation-texts"] = {"texts": len(extra), "with_mismatch": bad_extra}
     with open(os.path.join(rdir, "cmd"), "w") as f:
         f.write("#!/bin/sh\ncd /verif && exec ./check C11 --replay %s\n" % rdir)
     return mism, rdir, detail
@@ -91,9 +134,11 @@ def check():
         o.inconc("MIR: %s" % str(ex)[-300:])
         return o.finish()
     o.functions += [mirlib.func_ref(f_tok, "oal-syntax")] + [mirlib.func_ref(f, "oal-model") for f in (f_push, f_ts, f_end, f_trs, f_ns, f_nstart, f_nend, f_new)]
-    o.assumptions = ["logos' SpannedIter yields consecutive, ascending byte ranges on char boundaries (third-party)", "ListArena::push_back/get/tail and iterator adaptors are uninterpreted"]
+    o.assumptions = ["logos' SpannedIter yields consecutive, ascending byte ranges on char boundaries (third-party)", "ListArena::push_back/get/tail and iterator adaptors are uninterpreted",
+                     "productions: induction hypothesis - every sub-parser called answers Ok((s', n)) only with the leaves of n being the tokens between its cursor and s', a helper that answers Err has appended nothing (each is itself checked as a production); memoize answers what its production answers (C12)"]
     o.bounds = {"control": "one arbitrary iteration of tokenize's loop per token kind; all paths of the accessors", "values": "unbounded"}
-    o.outside = ["the logos DFA (which ranges it yields)", "the parser productions (which leaves end up in the tree, in which order)", "spans of compiler errors"]
+    o.outside = ["the logos DFA (which ranges it yields)", "that the induction over the productions is well founded (the parser terminates) and the loops of repeat / intersperse beyond one iteration",
+                 "spans of compiler errors"]
     L = mirlib.Lemma(o)
     S = L.smt
     bad = []
@@ -197,6 +242,28 @@ def check():
         mirlib.check_translator(o, exc, cname)
         structural("%s: an attempt that fails leaves no node behind (nothing is pushed in the iteration that ends the list)" % cname, ok_exit and n_exit > 0)
         structural("%s: when nodes are pushed the cursor moves to the end of the match they came from" % cname, ok_adv and n_adv > 0)
+
+    # the productions themselves: every token a production consumes becomes a leaf of its answer, once, in order
+    import prodlemma
+    prodlemma.base_lemmas(o, MM, E, structural)
+    prods = prodlemma.productions(MS)
+    n_paths = n_prod = 0
+    for fp in sorted(prods, key=lambda f: f.name):
+        try:
+            n, probs = prodlemma.check_production(fp, MS, E, L, structural, o, "")
+        except Exception as exn:
+            o.inconc("production %s: %s" % (fp.name, repr(exn)[:160]))
+            continue
+        n_paths += n
+        n_prod += 1
+        for pr in probs:
+            if pr not in bad:
+                bad.append(pr)
+        structural("production %s: on every path, what it consumes is what its answer's leaves are (%d paths)" % (fp.name, n), not probs and n > 0,
+                   probs[0] if probs else "production %s: no path decided" % fp.name)
+    o.extra["productions"] = {"functions": n_prod, "paths": n_paths}
+    if n_prod < 40:
+        o.inconc("only %d parser productions found in the MIR of oal-syntax (the grammar has about 60)" % n_prod)
 
     # TokenList plumbing
     ex = mirlib.executor([MM])
